@@ -7,7 +7,8 @@ from props import c02
 ID = "C17"
 LEAN_MODULES = ["NdInterp.Props.C17"]
 THEOREM_FILES = [("NdInterp/Props/C17.lean", "C17_")]
-RULE = ("`vharness history <seed> <n>`: n random histories (20..200 operations mixing interp_scalar, interp, interp_into, interp_array, "
+HARNESS_BINS = ["vharness_hist"]
+RULE = ("`vharness_hist <seed> <n>`: n random histories (20..200 operations mixing interp_scalar, interp, interp_into, interp_array, "
         "interp_array_into, in-range / out-of-range / NaN queries and rejected buffers caught by catch_unwind) on Linear, every spline "
         "boundary and Bilinear over owned and shared (ArcArray) storage; reference answer of every operation from a fresh interpolator; "
         "replayed in order, permuted on the same object, and split round-robin and in chunks over 2..16 threads behind a barrier (3 "
@@ -16,6 +17,16 @@ RULE = ("`vharness history <seed> <n>`: n random histories (20..200 operations m
 PARTIAL = ["the step from the source facts (all query methods take &self, no interior mutability / global state) to immutability is Rust's "
            "guarantee for shared references (trusted); data races inside the runtime cannot be exhibited by a model — the thread replays exercise them"]
 ASSUMPTIONS = ["Rust aliasing rules for &self", "the translator's extraction of receivers, fields and forbidden constructs (checked by C17_facts on every run)"]
+
+
+def build_failure_witness(out):
+    """the scenario asserts `Send + Sync` for every interpolator over thread-safe storage at compile time and shares interpolators
+    between scoped threads: a compile error about thread safety names a type that violates the last sentence of C17"""
+    import re
+    m = re.search(r"`([^`]+)` cannot be (shared|sent) between threads safely", out)
+    if m:
+        return f"an interpolator over thread-safe storage is not {'Sync' if m.group(2) == 'shared' else 'Send'}: it contains `{m.group(1)}`"
+    return None
 
 
 def generate(rng, tier):
@@ -43,7 +54,7 @@ def extra(rng, tier):
     fails, summary, hists = [], None, 0
     for l in out:
         if l.startswith("FAIL"):
-            fails.append({"line": f"vharness history {seed} {n}", "impl": l[:600],
+            fails.append({"line": f"vharness_hist {seed} {n}", "impl": l[:600],
                           "required": "every operation's answer must equal the answer of a fresh interpolator, in any order and under any interleaving"})
         elif l.startswith("hist "):
             hists += 1
@@ -56,6 +67,6 @@ def extra(rng, tier):
         if int(kv.get("failures", 1)) != len([f for f in fails]):
             pass
     else:
-        fails.append({"line": f"vharness history {seed} {n}", "impl": "no SUMMARY", "required": "the run must complete"})
+        fails.append({"line": f"vharness_hist {seed} {n}", "impl": "no SUMMARY", "required": "the run must complete"})
     return {"nontrivial": hists, "evaluations": ops, "failures": fails[:20], "hist": {"histories": hists, "operations_replayed": ops},
             "notes": [summary or "", f"seed={seed}"] + [l for l in out if l.startswith("STATS")]}
